@@ -1,17 +1,88 @@
 package conf
 
 import (
+	"math/bits"
+	"strconv"
+	"strings"
+	"unicode"
+
 	"code.cloudfoundry.org/bytefmt"
 
 	"github.com/bluenviron/mediamtx/internal/conf/jsonwrapper"
 )
+
+var stringSizeUnits = []struct {
+	suffix     string
+	multiplier uint64
+}{
+	{"E", bytefmt.EXABYTE},
+	{"P", bytefmt.PETABYTE},
+	{"T", bytefmt.TERABYTE},
+	{"G", bytefmt.GIGABYTE},
+	{"M", bytefmt.MEGABYTE},
+	{"K", bytefmt.KILOBYTE},
+}
 
 // StringSize is a size that is unmarshaled from a string.
 type StringSize uint64
 
 // MarshalJSON implements json.Marshaler.
 func (s StringSize) MarshalJSON() ([]byte, error) {
-	return []byte(`"` + bytefmt.ByteSize(uint64(s)) + `"`), nil
+	// use the biggest unit that represents the value exactly,
+	// in order not to lose precision.
+	v := uint64(s)
+	unit := "B"
+
+	if v != 0 {
+		for _, u := range stringSizeUnits {
+			if (v % u.multiplier) == 0 {
+				v /= u.multiplier
+				unit = u.suffix
+				break
+			}
+		}
+	}
+
+	return []byte(`"` + strconv.FormatUint(v, 10) + unit + `"`), nil
+}
+
+// stringSizeParseInteger parses sizes with an integer quantity without passing through floats.
+func stringSizeParseInteger(in string) (uint64, bool) {
+	in = strings.ToUpper(strings.TrimSpace(in))
+
+	i := strings.IndexFunc(in, unicode.IsLetter)
+	if i <= 0 {
+		return 0, false
+	}
+
+	quantity, err := strconv.ParseUint(in[:i], 10, 64)
+	if err != nil {
+		return 0, false
+	}
+
+	multiplier := uint64(0)
+
+	if in[i:] == "B" {
+		multiplier = 1
+	} else {
+		for _, u := range stringSizeUnits {
+			if in[i:] == u.suffix || in[i:] == u.suffix+"B" || in[i:] == u.suffix+"IB" {
+				multiplier = u.multiplier
+				break
+			}
+		}
+	}
+
+	if multiplier == 0 {
+		return 0, false
+	}
+
+	hi, lo := bits.Mul64(quantity, multiplier)
+	if hi != 0 {
+		return 0, false
+	}
+
+	return lo, true
 }
 
 // UnmarshalJSON implements json.Unmarshaler.
@@ -19,6 +90,11 @@ func (s *StringSize) UnmarshalJSON(b []byte) error {
 	var in string
 	if err := jsonwrapper.Unmarshal(b, &in); err != nil {
 		return err
+	}
+
+	if v, ok := stringSizeParseInteger(in); ok {
+		*s = StringSize(v)
+		return nil
 	}
 
 	v, err := bytefmt.ToBytes(in)
